@@ -10,3 +10,4 @@ pub mod runner;
 pub mod seams;
 pub mod spec;
 pub mod sut;
+pub mod trace;
